@@ -11,7 +11,7 @@ ENGINE = "E2 detgrid"
 TECHNIQUE = ("Hypothesis-generated request plans (up to five operations on one capability, requested back-to-back, from the completion callback of an earlier operation, or at "
              "a drawn scheduler step; operations that fail on purpose) x delivery schedules; oracle = sequential execution of the requests in request order on a model, plus a "
              "non-overlap invariant observed through the callbacks the operations invoke (modifier, uploadable read) and their completion")
-RULE = ("each case: one client, one mutable file (SDMF/MDMF) or directory; the capability string is resolved anew through create_from_cap for every operation; 2-5 operations "
+RULE = ("each case: one client, one mutable file (SDMF/MDMF) or directory; the capability string is resolved anew through create_from_cap for every operation (alone or accompanied by its read cap, as when reached through a directory entry); 2-5 operations "
         "from {overwrite, modify-append, modify-that-raises, modify-identity, download_best_version} or {set_node, set_node(overwrite=False), delete, set_children, list}, "
         "each requested at start, inside the completion callback of an earlier operation, or at scheduler step t; one drawn schedule. Oracle: every operation's result equals "
         "what sequential execution in request order gives on the model (reads see exactly the earlier writes, expected NoSuchChild/ExistingChild/modifier errors and nothing "
@@ -21,7 +21,7 @@ RULE = ("each case: one client, one mutable file (SDMF/MDMF) or directory; the c
 LEVEL_TEXT = "Random request plans and schedules against a sequential model, with a mechanism-independent non-overlap observation."
 ASSUMPTIONS = ["honest servers; the only failures are operations that fail by themselves (raising modifier, missing/existing child)",
                "an operation counts as finished when the Deferred returned to the caller fires"]
-REQUIRED_CLASSES = ["file", "dir", "requested-from-failed-callback", "queued-behind-failure", "writes-in-flight>=2", "read-between-writes", "op-failed-as-expected"]
+REQUIRED_CLASSES = ["resolved-with-readcap", "file", "dir", "requested-from-failed-callback", "queued-behind-failure", "writes-in-flight>=2", "read-between-writes", "op-failed-as-expected"]
 BUDGET = {"quick": 900, "thorough": 7200}
 
 
@@ -43,7 +43,7 @@ def cases(draw):
             kind = draw(st.sampled_from(["set", "set", "set-noover", "delete", "delete", "set_children", "list"]))
             arg = draw(st.integers(0, 3))
         at = draw(st.sampled_from([["start"], ["start"], ["start"], ["after", draw(st.integers(0, max(0, i - 1)))], ["step", draw(st.integers(0, 25))]])) if i else ["start"]
-        ops.append({"kind": kind, "arg": arg, "at": at})
+        ops.append({"kind": kind, "arg": arg, "at": at, "via": draw(st.sampled_from(["w", "w", "w+r"]))})
     return {"mode": mode, "fmt": draw(st.sampled_from(["sdmf", "mdmf"])), "k": draw(st.integers(1, 2)), "n": draw(st.integers(2, 4)), "ops": ops,
             "sched": draw(st.lists(st.integers(0, 9), max_size=draw(st.sampled_from([0, 30, 200]))))}
 
@@ -75,6 +75,7 @@ def run_case(case, ctx):
             ctx.fail("create-failed", "create failed %r" % (r,))
             return
         cap = r[1].get_uri()
+        rocap = r[1].get_readonly_uri()
         g.sched.choices, g.sched.ci = list(case["sched"]), 0
         order = []                  # request order (indices)
         results = {}                # i -> ("ok", v) | ("err", exc)
@@ -88,7 +89,10 @@ def run_case(case, ctx):
             op = ops[i]
             order.append(i)
             events.append(("req", i))
-            node = c.nodemaker.create_from_cap(cap)     # a fresh resolution of the same capability string
+            # a fresh resolution of the same capability string: alone, or together with its read cap (as a directory entry carries it)
+            node = c.nodemaker.create_from_cap(cap) if op.get("via", "w") == "w" else c.nodemaker.create_from_cap(cap, rocap)
+            if op.get("via") == "w+r":
+                classes.add("resolved-with-readcap")
             kind, arg = op["kind"], op["arg"]
             try:
                 if kind == "overwrite":
